@@ -330,7 +330,8 @@ Definition body_item_trace (m : mode) (b : body_item) : list effect :=
 Definition body_trace (m : mode) (l : list body_item) : list effect :=
   concat (map (body_item_trace m) l).
 
-(* --- execute_vyxal: input parsing, transpile / exec under try, implicit output --- *)
+(* --- execute_vyxal: input parsing; transpile, exec, and flag post-processing +
+   implicit output each under a try whose handler records the error online --- *)
 Inductive run_outcome :=
 | RunOk (body : list body_item)        (* the printing / evaluating steps of the body, then normal end *)
 | RunRaises (body : list body_item).   (* the steps up to the exception *)
@@ -343,7 +344,7 @@ Record scenario := {
   sc_run : run_outcome;
   sc_flag_O : bool;                  (* flag O: no implicit output *)
   sc_flag_o : bool;                  (* flag o: force the implicit output *)
-  sc_final : option pval             (* Some v: the final value prints as v; None: printing it raises *)
+  sc_final : option pval             (* Some v: the final value prints as v; None: printing it raises at once *)
 }.
 
 (* ctx.printed after the body: some vy_print ran *)
@@ -368,7 +369,7 @@ Definition execute_trace (m : mode) (s : scenario) : list effect :=
                  body_trace m body ++ (if sc_implicit s
                           then match sc_final s with
                                | Some v => print_trace m v
-                               | None => [Raise]        (* the implicit output is AFTER the try *)
+                               | None => capture m      (* post-processing / implicit output run under their own try *)
                                end
                           else [])
              end).
